@@ -141,6 +141,8 @@ structure BasicPost (S : Sys V K) (c : Ctrl K τ) (ch0 : List (QE V K)) (out : O
   energy : out.energy.Consistent S
   /-- so does every energy object constructed on the way -/
   made : ∀ E' ∈ out.made, E'.Consistent S
+  /-- and every energy object shown to the controller -/
+  checkedC : ∀ E' ∈ out.checked, E'.Consistent S
   /-- every step length that was used is non-negative -/
   alpha : ∀ it ∈ out.iters, 0 ≤ it.alpha
   /-- CONVERGED is only returned through `gamma == 0` or through the controller -/
@@ -160,36 +162,36 @@ structure BasicPost (S : Sys V K) (c : Ctrl K τ) (ch0 : List (QE V K)) (out : O
 theorem loop_basic (S : Sys V K) (hA : S.Linear) (c : Ctrl K τ) (nreset : Int) (fuel : Nat)
     (E : QE V K) (r d : V) (pg : K) (ii : Int) (s : St τ) (ch md : List (QE V K)) (its : List (Iter K))
     (hE : E.Consistent S) (hr : r = E.grad) (hmd : ∀ E' ∈ md, E'.Consistent S)
-    (hch : ch ≠ []) (hfeed : c.feed (ch.map (obs S)) = some (s, .continue_))
+    (hch : ch ≠ []) (hchc : ∀ E' ∈ ch, E'.Consistent S) (hfeed : c.feed (ch.map (obs S)) = some (s, .continue_))
     (hits : ∀ it ∈ its, 0 ≤ it.alpha) :
     BasicPost S c ch (loop S c nreset fuel E r d pg ii s ch md its) := by
   fun_induction loop S c nreset fuel E r d pg ii s ch md its
-  case case1 => exact ⟨⟨[], by simp⟩, hE, hmd, hits, by simp, by simp, by simp, by simp, by simp⟩
-  case case2 => exact ⟨⟨[], by simp⟩, hE, hmd, hits, by simp, by simp, by simp, by simp, by simp⟩
-  case case3 => exact ⟨⟨[], by simp⟩, hE, hmd, hits, by simp, by simp, by simp, by simp, by simp⟩
+  case case1 => exact ⟨⟨[], by simp⟩, hE, hmd, hchc, hits, by simp, by simp, by simp, by simp, by simp⟩
+  case case2 => exact ⟨⟨[], by simp⟩, hE, hmd, hchc, hits, by simp, by simp, by simp, by simp, by simp⟩
+  case case3 => exact ⟨⟨[], by simp⟩, hE, hmd, hchc, hits, by simp, by simp, by simp, by simp, by simp⟩
   case case4 fuel E r d pg ii s ch md its hcurv halpha E' r' ii' hadv it hgam =>
     obtain ⟨hE', hr', _, _⟩ := advance_eq_spec S hA hE hr hadv
-    exact ⟨⟨[], by simp⟩, hE', forall_mem_snoc hmd hE', forall_mem_snoc hits (not_lt.1 halpha), by simp, by simp,
+    exact ⟨⟨[], by simp⟩, hE', forall_mem_snoc hmd hE', hchc, forall_mem_snoc hits (not_lt.1 halpha), by simp, by simp,
       by simp, by simp, by simp⟩
   case case5 fuel E r d pg ii s ch md its hcurv halpha E' r' ii' hadv it hgam hgz =>
     obtain ⟨hE', hr', _, _⟩ := advance_eq_spec S hA hE hr hadv
-    refine ⟨⟨[], by simp⟩, hE', forall_mem_snoc hmd hE', forall_mem_snoc hits (not_lt.1 halpha), by simp, by simp,
+    refine ⟨⟨[], by simp⟩, hE', forall_mem_snoc hmd hE', hchc, forall_mem_snoc hits (not_lt.1 halpha), by simp, by simp,
       ?_, by simp, by simp⟩
     intro _; rw [← hr']; exact hgz
   case case6 fuel E r d pg ii s ch md its hcurv halpha E' r' ii' hadv it hgam hgz hchk =>
     obtain ⟨hE', hr', _, _⟩ := advance_eq_spec S hA hE hr hadv
-    exact ⟨⟨[E'], rfl⟩, hE', forall_mem_snoc hmd hE', forall_mem_snoc hits (not_lt.1 halpha), by simp, by simp,
+    exact ⟨⟨[E'], rfl⟩, hE', forall_mem_snoc hmd hE', forall_mem_snoc hchc hE', forall_mem_snoc hits (not_lt.1 halpha), by simp, by simp,
       by simp, by simp, by simp⟩
   case case7 fuel E r d pg ii s ch md its hcurv halpha E' r' ii' hadv it hgam hgz s1 status hchk hst =>
     obtain ⟨hE', hr', _, _⟩ := advance_eq_spec S hA hE hr hadv
-    refine ⟨⟨[E'], rfl⟩, hE', forall_mem_snoc hmd hE', forall_mem_snoc hits (not_lt.1 halpha), by simp, ?_,
+    refine ⟨⟨[E'], rfl⟩, hE', forall_mem_snoc hmd hE', forall_mem_snoc hchc hE', forall_mem_snoc hits (not_lt.1 halpha), by simp, ?_,
       by simp, ?_, by simp⟩
     · intro he; exact absurd he (check_ne_error hchk)
     · intro _; exact ⟨ch, s, s1, rfl, hch, hfeed, hchk, rfl⟩
   case case8 fuel E r d pg ii s ch md its hcurv halpha E' r' ii' hadv it hgam hgz s1 status hchk hst ih =>
     obtain ⟨hE', hr', _, _⟩ := advance_eq_spec S hA hE hr hadv
     have hst' : status = .continue_ := not_not.1 hst
-    have := ih hE' hr' (forall_mem_snoc hmd hE') (by simp)
+    have := ih hE' hr' (forall_mem_snoc hmd hE') (by simp) (forall_mem_snoc hchc hE')
       (by rw [feed_map_snoc S c ch hch, hfeed, ← hst']; exact hchk) (forall_mem_snoc hits (not_lt.1 halpha))
     obtain ⟨t, ht⟩ := this.pre
     exact { this with pre := ⟨[E'] ++ t, by rw [ht, List.append_assoc]⟩ }
@@ -198,6 +200,7 @@ theorem loop_basic (S : Sys V K) (hA : S.Linear) (c : Ctrl K τ) (nreset : Int) 
 structure CgPost (S : Sys V K) (c : Ctrl K τ) (E : QE V K) (out : Out V K τ) : Prop where
   energy : out.energy.Consistent S
   made : ∀ E' ∈ out.made, E'.Consistent S
+  checkedC : ∀ E' ∈ out.checked, E'.Consistent S
   alpha : ∀ it ∈ out.iters, 0 ≤ it.alpha
   /-- the first energy shown to the controller is the start energy -/
   pre : ∃ t, out.checked = E :: t
@@ -218,11 +221,11 @@ theorem cg_basic (S : Sys V K) (hA : S.Linear) (c : Ctrl K τ) (nreset : Int) (f
     (hE : E.Consistent S) : CgPost S c E (cg S c nreset fuel E) := by
   unfold cg
   split
-  · exact ⟨hE, by simp, by simp, ⟨[], rfl⟩, by simp, by simp, by simp, by simp, by simp, by simp⟩
+  · exact ⟨hE, by simp, by simpa using hE, by simp, ⟨[], rfl⟩, by simp, by simp, by simp, by simp, by simp, by simp⟩
   · rename_i s status hstart
     split
     · rename_i hst
-      refine ⟨hE, by simp, by simp, ⟨[], rfl⟩, by simp, ?_, ?_, by simp, by simp, by simp⟩
+      refine ⟨hE, by simp, by simpa using hE, by simp, ⟨[], rfl⟩, by simp, ?_, ?_, by simp, by simp, by simp⟩
       · intro he; exact absurd he (check_ne_error hstart)
       · intro _; exact ⟨rfl, s, hstart, rfl⟩
     · rename_i hst
@@ -231,12 +234,12 @@ theorem cg_basic (S : Sys V K) (hA : S.Linear) (c : Ctrl K τ) (nreset : Int) (f
       dsimp only
       split
       · rename_i hpg
-        refine ⟨hE, by simp, by simp, ⟨[], rfl⟩, by simp, by simp, by simp, by simp, ?_, by simp⟩
+        refine ⟨hE, by simp, by simpa using hE, by simp, ⟨[], rfl⟩, by simp, by simp, by simp, by simp, ?_, by simp⟩
         intro _; exact hpg
       · have hb := loop_basic S hA c nreset fuel E E.grad (precond S E.grad) (S.ip E.grad (precond S E.grad)) 0 s
-          [E] [] [] hE rfl (by simp) (by simp) (by simpa [feed_single] using hstart) (by simp)
+          [E] [] [] hE rfl (by simp) (by simp) (by simpa using hE) (by simpa [feed_single] using hstart) (by simp)
         obtain ⟨t, ht⟩ := hb.pre
-        refine ⟨hb.energy, hb.made, hb.alpha, ⟨t, by simpa using ht⟩, ?_, hb.err, ?_, ?_, ?_, ?_⟩
+        refine ⟨hb.energy, hb.made, hb.checkedC, hb.alpha, ⟨t, by simpa using ht⟩, ?_, hb.err, ?_, ?_, ?_, ?_⟩
         · intro h; rcases hb.conv h with h1 | h1
           · exact Or.inr (Or.inr (Or.inl h1))
           · exact Or.inr (Or.inr (Or.inr h1))
